@@ -50,7 +50,7 @@ XY = ("x", "y")
 XYZ = ("x", "y", "z")
 # levels: (n, pool, alphabet 0 mini / 1 core / 2 full, wrappers)
 BOUNDS = {
-    "quick": dict(levels=[(1, XY, 2, S.WRAPPERS), (2, XY, 2, S.WRAPPERS), (3, XY, 1, ("mod", "fnp"))], per_shard=1200),
+    "quick": dict(levels=[(1, XY, 2, S.WRAPPERS), (2, XY, 2, S.WRAPPERS), (3, XY, 0, S.WRAPPERS)], per_shard=600),
     "thorough": dict(levels=[(1, XYZ, 2, S.WRAPPERS), (2, XYZ, 2, S.WRAPPERS), (3, XYZ, 1, S.WRAPPERS),
                              (3, XY, 2, S.WRAPPERS), (4, XY, 0, ("mod", "fng"))], per_shard=6000),
 }
